@@ -55,6 +55,7 @@ func (req *SrvReq) RespondError(err interface{}) {
 		verifPoint("respond.late", req, 0, 0)
 		return
 	}
+	verifPoint("respond.guarded", req, 0, 0)
 
 	switch e := err.(type) {
 	case *Error:
@@ -74,6 +75,7 @@ func (req *SrvReq) RespondRversion(msize uint32, version string) {
 		verifPoint("respond.late", req, 0, 0)
 		return
 	}
+	verifPoint("respond.guarded", req, 0, 0)
 
 	err := PackRversion(req.Rc, msize, version)
 	if err != nil {
@@ -89,6 +91,7 @@ func (req *SrvReq) RespondRauth(aqid *Qid) {
 		verifPoint("respond.late", req, 0, 0)
 		return
 	}
+	verifPoint("respond.guarded", req, 0, 0)
 
 	err := PackRauth(req.Rc, aqid)
 	if err != nil {
@@ -104,6 +107,7 @@ func (req *SrvReq) RespondRflush() {
 		verifPoint("respond.late", req, 0, 0)
 		return
 	}
+	verifPoint("respond.guarded", req, 0, 0)
 
 	err := PackRflush(req.Rc)
 	if err != nil {
@@ -119,6 +123,7 @@ func (req *SrvReq) RespondRattach(aqid *Qid) {
 		verifPoint("respond.late", req, 0, 0)
 		return
 	}
+	verifPoint("respond.guarded", req, 0, 0)
 
 	err := PackRattach(req.Rc, aqid)
 	if err != nil {
@@ -134,6 +139,7 @@ func (req *SrvReq) RespondRwalk(wqids []Qid) {
 		verifPoint("respond.late", req, 0, 0)
 		return
 	}
+	verifPoint("respond.guarded", req, 0, 0)
 
 	err := PackRwalk(req.Rc, wqids)
 	if err != nil {
@@ -149,6 +155,7 @@ func (req *SrvReq) RespondRopen(qid *Qid, iounit uint32) {
 		verifPoint("respond.late", req, 0, 0)
 		return
 	}
+	verifPoint("respond.guarded", req, 0, 0)
 
 	err := PackRopen(req.Rc, qid, iounit)
 	if err != nil {
@@ -164,6 +171,7 @@ func (req *SrvReq) RespondRcreate(qid *Qid, iounit uint32) {
 		verifPoint("respond.late", req, 0, 0)
 		return
 	}
+	verifPoint("respond.guarded", req, 0, 0)
 
 	err := PackRcreate(req.Rc, qid, iounit)
 	if err != nil {
@@ -179,6 +187,7 @@ func (req *SrvReq) RespondRread(data []byte) {
 		verifPoint("respond.late", req, 0, 0)
 		return
 	}
+	verifPoint("respond.guarded", req, 0, 0)
 
 	err := PackRread(req.Rc, data)
 	if err != nil {
@@ -194,6 +203,7 @@ func (req *SrvReq) RespondRwrite(count uint32) {
 		verifPoint("respond.late", req, 0, 0)
 		return
 	}
+	verifPoint("respond.guarded", req, 0, 0)
 
 	err := PackRwrite(req.Rc, count)
 	if err != nil {
@@ -209,6 +219,7 @@ func (req *SrvReq) RespondRclunk() {
 		verifPoint("respond.late", req, 0, 0)
 		return
 	}
+	verifPoint("respond.guarded", req, 0, 0)
 
 	err := PackRclunk(req.Rc)
 	if err != nil {
@@ -224,6 +235,7 @@ func (req *SrvReq) RespondRremove() {
 		verifPoint("respond.late", req, 0, 0)
 		return
 	}
+	verifPoint("respond.guarded", req, 0, 0)
 
 	err := PackRremove(req.Rc)
 	if err != nil {
@@ -239,6 +251,7 @@ func (req *SrvReq) RespondRstat(st *Dir) {
 		verifPoint("respond.late", req, 0, 0)
 		return
 	}
+	verifPoint("respond.guarded", req, 0, 0)
 
 	err := PackRstat(req.Rc, st, req.Conn.Dotu)
 	if err != nil {
@@ -254,6 +267,7 @@ func (req *SrvReq) RespondRwstat() {
 		verifPoint("respond.late", req, 0, 0)
 		return
 	}
+	verifPoint("respond.guarded", req, 0, 0)
 
 	err := PackRwstat(req.Rc)
 	if err != nil {
